@@ -198,6 +198,8 @@ def _judge_c04(w, st, pre, post, res, val):
                 out.append(("clobber:" + op, "DestinationExistsError but the disk changed: %s" % diff[:4]))
         if op == "update_sp" and res == "KeyError" and pre != post:
             out.append(("update-overwrote:" + op, "update_statepoint(overwrite=False) raised KeyError but changed the disk"))
+        if op == "update_sp" and not a[3] and getattr(w, "expect_update_conflict", False) and res != "KeyError":
+            out.append(("update-overwrote-existing-key", "update_statepoint(overwrite=False) on a key that already has another value returned %s instead of raising KeyError (existing value silently overwritten)" % res))
     elif op in ("writefile", "docset") and res == "ok":
         # writing into one job must not change any other job (clone / move must not share storage)
         job = w.h.get(a[0])
@@ -507,6 +509,11 @@ class World2(W.World):
             for part in path:
                 node = node.get(part, None) if isinstance(node, dict) else None
             legit_keyerror = node is not None and not W._type_exact(node, self.uni.vmap[a[2]])
+            present = isinstance(cur, dict) and path[0] in cur and (len(path) == 1 or (isinstance(cur[path[0]], dict) and path[-1] in cur[path[0]]))
+            # the code compares with != (Python equality): a present key whose value differs must be refused
+            self.expect_update_conflict = bool(present and node != self.uni.vmap[a[2]])
+        else:
+            self.expect_update_conflict = False
         if op == "open_sp":
             # C02: the handle must be unaffected by later mutation of the caller's mapping
             arg = self.uni.real(a[2])
@@ -640,7 +647,7 @@ def run_config(ctx, pid, cfg, pre=None):
             nodes, edges, parent, init = W.load_graph(dot)
             total = len(edges)
             if cfg.limit and len(edges) > cfg.limit:
-                edges = rnd.sample(edges, cfg.limit)
+                edges = _stratified(nodes, edges, cfg.limit, rnd)
             _G.update(nodes=nodes, parent=parent, uni=uni, projects=cfg.projects, judge=judge, base=ctx.work)
             nchunks = 64
             flat = [x for ch in core.pmap(_edge_worker, [edges[i::nchunks] for i in range(nchunks) if edges[i::nchunks]], procs=16, chunks=1) for x in ch]
@@ -676,6 +683,31 @@ def run_config(ctx, pid, cfg, pre=None):
         shutil.rmtree(simdir, ignore_errors=True)
         if outs:
             ctx.sample({"config": cfg.name, "kind": "simulated behaviour", "script": outs[0][1][:12]})
+
+
+def _stratified(nodes, edges, limit, rnd):
+    """a seeded sample of `limit` edges that keeps rare situations: edges are grouped by (operation, outcome, shape of the
+    pre-state: number of directories per project, which of them lack a state point / are empty, taint, whether the disk changes)
+    and every group contributes at least a minimum before the rest is filled uniformly"""
+    groups = collections.defaultdict(list)
+    for (u, v) in edges:
+        a, b = nodes[u], nodes[v]
+        shape = tuple(sorted((p, len(W.fdict(w_)), sum(1 for r in W.fdict(w_).values() if r["spk"] != "ok"),
+                              sum(1 for r in W.fdict(w_).values() if r["doc"] == "nodoc" and not W.fdict(r["files"])))
+                             for p, w_ in a["ws"].items()))
+        key = (b["last"]["op"], b["last"]["res"], shape, tuple(sorted(a.get("tainted", ()))), a["ws"] != b["ws"],
+               sum(1 for hh in a["h"].values() if hh["live"]))
+        groups[key].append((u, v))
+    per = max(8, limit // (2 * max(1, len(groups))))
+    chosen, rest = [], []
+    for key in sorted(groups, key=repr):
+        g = groups[key]
+        rnd.shuffle(g)
+        chosen += g[:per]
+        rest += g[per:]
+    if len(chosen) < limit:
+        chosen += rnd.sample(rest, min(len(rest), limit - len(chosen)))
+    return chosen[:max(limit, len(chosen))] if len(chosen) <= limit * 2 else rnd.sample(chosen, limit * 2)
 
 
 def _account(ctx, pid, cfg, flat, total, nnodes):
